@@ -64,6 +64,11 @@ func (vc *VC) buildQuery(o *Obligation) string {
 		tokenizeSyms(a, x.syms)
 		axs = append(axs, x)
 	}
+	for _, a := range vc.typeFacts {
+		x := &ax{text: "(assert " + a + ")", syms: map[string]bool{}}
+		tokenizeSyms(a, x.syms)
+		axs = append(axs, x)
+	}
 	seenDef := map[string]bool{}
 	changed := true
 	for changed {
@@ -192,6 +197,7 @@ type solveOpts struct {
 	both     bool // thorough: require a second back end where it answers
 	workers  int
 	noSecond bool
+	stability bool // claim mode: must also discharge under a perturbed solver seed, quickly
 }
 
 func discharge(vc *VC, obls []*Obligation, opts solveOpts) {
@@ -210,6 +216,17 @@ func discharge(vc *VC, obls []*Obligation, opts solveOpts) {
 			}
 			res, out, secs := runSolver(solvers["z3-5.1"], opts.dir, base, o.Query, opts.quickT, true)
 			o.Result, o.Backend, o.Secs, o.Output = res, "z3-5.1", secs, out
+			if res == "unsat" && opts.stability {
+				sp := solverSpec{name: "z3-5.1s", cmd: func(f string, t int) []string {
+					return []string{"z3-new", fmt.Sprintf("-T:%d", t), "smt.random_seed=11", "sat.random_seed=11", "smt.arith.random_initial_value=true", f}
+				}}
+				r2, _, s2 := runSolver(sp, opts.dir, base, o.Query, opts.quickT, false)
+				o.Secs += s2
+				if r2 != "unsat" {
+					o.Result, o.Output = "unstable", "discharged with the default seed but not with a perturbed seed ("+r2+")"
+					return
+				}
+			}
 			if res == "unsat" || res == "sat" {
 				if res == "sat" {
 					o.Model = out
